@@ -23,9 +23,9 @@ import (
 
 type c13Obs struct {
 	Start, End, Updated time.Time
-	Timeout            bool
-	Ann                map[string]string
-	alts               []*c13Obs // other outcomes the contract allows (touching ranges, collected predecessor)
+	Timeout             bool
+	Ann                 map[string]string
+	alts                []*c13Obs // other outcomes the contract allows (touching ranges, collected predecessor)
 }
 
 func c13Gen(seed uint64, tier string) *Plan {
@@ -310,9 +310,9 @@ func altText(p *Plan, st *c13Obs) string {
 func init() {
 	Register(&Prop{
 		ID: "C13", Level: "exploration", Gen: c13Gen, Check: c13Check,
-		Rule: "seeded history of 6-40 (thorough 10-120) POST /api/v2/alerts calls over 1-4 label sets: start/end present or omitted with offsets from -10 min to +20 min (overlapping, disjoint, out of order, already resolved, re-fired), batches of 1-4 alerts mixing valid and invalid ones, empty-valued labels, gaps from 3 ms to 16 min, provider GC interval 5 s-4 min, a GET after every POST and at random instants. Non-trivial: at least one alert was compared with the contract; distinct by abstract trace.",
-		Real: []string{"app.New wiring", "api/v2 postAlertsHandler/getAlertsHandler", "provider/mem (Put, merge, GC)", "store", "alert.Merge/Validate", "dispatch routing (receivers field)"},
-		Stub: []string{"clock (synctest)", "client (in-memory HTTP through the real mux)"},
+		Rule:        "seeded history of 6-40 (thorough 10-120) POST /api/v2/alerts calls over 1-4 label sets: start/end present or omitted with offsets from -10 min to +20 min (overlapping, disjoint, out of order, already resolved, re-fired), batches of 1-4 alerts mixing valid and invalid ones, empty-valued labels, gaps from 3 ms to 16 min, provider GC interval 5 s-4 min, a GET after every POST and at random instants. Non-trivial: at least one alert was compared with the contract; distinct by abstract trace.",
+		Real:        []string{"app.New wiring", "api/v2 postAlertsHandler/getAlertsHandler", "provider/mem (Put, merge, GC)", "store", "alert.Merge/Validate", "dispatch routing (receivers field)"},
+		Stub:        []string{"clock (synctest)", "client (in-memory HTTP through the real mux)"},
 		Assumptions: []string{"where a new range only touches the stored one (equal endpoints) both the merged and the replaced outcome are accepted", "a resolved stored version may or may not have been garbage collected before an overlapping re-submission; both outcomes are accepted"},
 	})
 }
